@@ -25,17 +25,19 @@ import (
 // Black-box through the public builders (Cache, LoadingCache, HybridCache, HybridLoadingCache).
 
 type c10Case struct {
-	Kind      string `json:"kind"` // plain | loading | hybrid | hybridloading
-	MaxSize   int    `json:"maxsize"`
-	Writers   int    `json:"writers"`
-	WOps      int    `json:"wops"` // writes per writer
-	Readers   int    `json:"readers"`
-	Waiters   int    `json:"waiters,omitempty"`    // goroutines calling Wait in a loop while the writers run (plain/loading)
-	Stall     bool   `json:"stall"`                // hold maintenance inside a gated removal listener so that the write queue fills up and writers park on it
-	CloseAt   int    `json:"close_at"`             // Close is called once this many writes have been issued (0 = right away)
-	PostWait  bool   `json:"post_wait"`            // call Wait after Close (plain/loading)
-	FailSave  int    `json:"fail_save,omitempty"`  // n > 0: while the writers run, SaveCache is called n times with a writer that fails after a few bytes (at different offsets)
-	LongStall bool   `json:"long_stall,omitempty"` // with Stall: maintenance stays held for 1.2 s after Close was called, so the 1 s maintenance tick fires while Close is queued on the policy lock
+	Kind       string `json:"kind"` // plain | loading | hybrid | hybridloading
+	MaxSize    int    `json:"maxsize"`
+	Writers    int    `json:"writers"`
+	WOps       int    `json:"wops"` // writes per writer
+	Readers    int    `json:"readers"`
+	Waiters    int    `json:"waiters,omitempty"`     // goroutines calling Wait in a loop while the writers run (plain/loading)
+	Stall      bool   `json:"stall"`                 // hold maintenance inside a gated removal listener so that the write queue fills up and writers park on it
+	CloseAt    int    `json:"close_at"`              // Close is called once this many writes have been issued (0 = right away)
+	PostWait   bool   `json:"post_wait"`             // call Wait after Close (plain/loading)
+	FailSave   int    `json:"fail_save,omitempty"`   // n > 0: while the writers run, SaveCache is called n times with a writer that fails after a few bytes (at different offsets)
+	HitReaders int    `json:"hit_readers,omitempty"` // goroutines reading resident keys in a tight loop until Close has returned (their hits fill read-buffer stripes)
+	SlowSave   bool   `json:"slow_save,omitempty"`   // with HitReaders: SaveCache into a slow writer keeps the policy lock busy until Close is called, so readers with a full stripe park on it
+	LongStall  bool   `json:"long_stall,omitempty"`  // with Stall: maintenance stays held for 1.2 s after Close was called, so the 1 s maintenance tick fires while Close is queued on the policy lock
 }
 
 func genC10(t *rapid.T) c10Case {
@@ -61,10 +63,26 @@ func genC10(t *rapid.T) c10Case {
 	if !c.Stall && rapid.IntRange(0, 2).Draw(t, "failSave") == 0 {
 		c.FailSave = rapid.IntRange(1, 4).Draw(t, "failSaves")
 	}
+	if !c.Stall && c.FailSave == 0 && c.Writers <= 64 && rapid.IntRange(0, 2).Draw(t, "hitReaders") == 0 {
+		// readers whose hits keep filling read-buffer stripes while the policy lock is busy, and Close in
+		// the middle of that (seeded C10h: Close waiting, with the policy lock held, for a batch whose
+		// holder is waiting for that lock)
+		c.HitReaders = rapid.SampledFrom([]int{4, 8, 16}).Draw(t, "nHitReaders")
+		c.SlowSave = rapid.IntRange(0, 3).Draw(t, "slowSave") != 0
+		c.MaxSize = 1000
+	}
 	return c
 }
 
 const c10SeededKey = 900001
+
+// c10SlowWriter takes 50 us per Write (SaveCache holds the policy lock meanwhile)
+type c10SlowWriter struct{}
+
+func (c10SlowWriter) Write(p []byte) (int, error) {
+	time.Sleep(50 * time.Microsecond)
+	return len(p), nil
+}
 
 // c10FailingWriter accepts 'left' bytes and then fails every Write
 type c10FailingWriter struct{ left int }
@@ -196,6 +214,36 @@ func execC10(c c10Case, x *verifkit.Ctx) (fail *verifkit.Failure) {
 			}
 		}()
 	}
+	var closeReturned atomic.Bool
+	if c.HitReaders > 0 {
+		for j := 0; j < 64; j++ {
+			cl.set(700000+j, j)
+		}
+		for r := 0; r < c.HitReaders; r++ {
+			r := r
+			wg.Add(1)
+			go func() {
+				defer wg.Done()
+				for i := 0; !closeReturned.Load() && i < 50_000_000; i++ {
+					cl.get(700000 + (r*7+i)%64)
+				}
+			}()
+		}
+		if c.SlowSave && cl.save != nil {
+			wg.Add(1)
+			go func() {
+				defer wg.Done()
+				for {
+					select {
+					case <-closeNow:
+						return
+					default:
+					}
+					_ = cl.save(c10SlowWriter{})
+				}
+			}()
+		}
+	}
 	if cl.wait != nil {
 		for w := 0; w < c.Waiters; w++ {
 			wg.Add(1)
@@ -239,8 +287,10 @@ func execC10(c c10Case, x *verifkit.Ctx) (fail *verifkit.Failure) {
 	release()
 	select {
 	case <-closed:
+		closeReturned.Store(true)
 	case <-time.After(20 * time.Second):
-		f := verifkit.Failf("close/close-blocked", "Close did not return within 20 s (%s)", c.Kind)
+		closeReturned.Store(true)
+		f := verifkit.Failf("close/close-blocked", "Close did not return within 20 s (%s; %d readers hitting resident keys in a loop, slow SaveCache before Close: %v)", c.Kind, c.HitReaders, c.SlowSave)
 		f.Sticky = true
 		return f
 	}
@@ -357,8 +407,10 @@ func TestVerifC10(t *testing.T) {
 			{Kind: "hybridloading", MaxSize: 1000, Writers: 40, WOps: 100, Readers: 4, Stall: false, CloseAt: 1000},
 			{Kind: "plain", MaxSize: 16, Writers: 8, WOps: 50, Readers: 1, Stall: true, LongStall: true, CloseAt: 200, PostWait: true},
 			{Kind: "loading", MaxSize: 1000, Writers: 8, WOps: 200, Readers: 2, FailSave: 4, CloseAt: 1600},
+			{Kind: "plain", MaxSize: 1000, Writers: 2, WOps: 100, HitReaders: 8, SlowSave: true, CloseAt: 100},
+			{Kind: "loading", MaxSize: 1000, Writers: 2, WOps: 100, HitReaders: 16, SlowSave: true, CloseAt: 200},
 		},
-		Rule: "C10: rapid draws the cache kind (plain, loading, hybrid, hybrid loading - built through the public builders), MaxSize, 1..2500 writer goroutines (classes below and above the write queue's capacity), 0..8 readers, 0..4 goroutines calling Wait in a loop meanwhile, whether maintenance is held inside a gated removal listener when Close lands (so that the queue is full and writers are parked on it; in an eighth of those cases for 1.2 s more, so that the maintenance tick fires while Close is queued on the policy lock), the moment of Close, SaveCache calls into a writer that fails after 0..3000 bytes while the writers run (a third of the unstalled cases), and the calls made after Close (Set, Delete, Get of stored keys and - hybrid kinds - of a key that lives only in the secondary tier, loading Get, second Close, Wait); non-trivial = more writes in flight than the queue holds at Close, or a hybrid cache, or Wait after Close",
+		Rule: "C10: rapid draws the cache kind (plain, loading, hybrid, hybrid loading - built through the public builders), MaxSize, 1..2500 writer goroutines (classes below and above the write queue's capacity), 0..8 readers, 0..4 goroutines calling Wait in a loop meanwhile, whether maintenance is held inside a gated removal listener when Close lands (so that the queue is full and writers are parked on it; in an eighth of those cases for 1.2 s more, so that the maintenance tick fires while Close is queued on the policy lock), the moment of Close, SaveCache calls into a writer that fails after 0..3000 bytes while the writers run (a third of the unstalled cases), in a third of the remaining small cases 4..16 readers hitting resident keys in a tight loop until Close has returned, mostly with SaveCache into a slow writer keeping the policy lock busy until Close is called, and the calls made after Close (Set, Delete, Get of stored keys and - hybrid kinds - of a key that lives only in the secondary tier, loading Get, second Close, Wait); non-trivial = more writes in flight than the queue holds at Close, or a hybrid cache, or Wait after Close",
 		Assumptions: []string{
 			"a call that has not returned 5 s after Close returned, while it is parked in a channel send and no background goroutine of that cache exists any more, is reported as blocked for ever (stack classification); real scheduler, failures are not re-executed",
 			"background goroutines are recognised by the frames Store.maintenance / Store.processSecondary in the goroutine profile, counted relative to the start of the case",
